@@ -73,7 +73,7 @@ theorem val_ic (E : RegexEngine) (e : Expr) (f : Str) (misc : Option ModSym) : â
   | .null => by simp [parseVal, iPrefix]
   | .bool b => by simp [parseVal, iPrefix]
   | .num n => by cases n <;> simp [parseVal, iPrefix]
-  | .tagged => by simp [parseVal, iPrefix]
+  | .tagged _ => by simp [parseVal, iPrefix]
   | .str s => by simp only [parseVal, iPrefix, ic_feature]
   | .map m => by
     simp only [parseVal, iPrefix]
